@@ -560,7 +560,6 @@ func abstractMsg(m []byte) (map[string]any, bool) {
 	return map[string]any{"lines": lines, "finalnl": finalnl}, true
 }
 
-
 // checkRawOpen re-runs a recorded (byte-level mutated) message against the outcome the trace specification expects.
 func checkRawOpen(c *core.Case, raw string) ([]core.Violation, bool) {
 	var in struct {
